@@ -87,15 +87,31 @@ def decide(pid, prop, recs, problems, units):
     failures = []
     total = 0; ok = 0; bounded_ok = 0
     named_seen = set()
+    for u in units:
+        for x in u['runs']:
+            if x.get('unwind_obligation'): named_seen.add(x['unwind_obligation'])
     for r in recs:
         if r['kind'] == 'CANARY': continue
         if r['kind'] == 'UNWIND':
             if r['status'] != 'SUCCESS':
                 run = [x for u in units if u['name'] == r['unit'] for x in u['runs'] if x['id'] == r['run']][0]
-                if run.get('unwind_obligation'):
-                    failures.append(dict(r, kind='OBL', name=run['unwind_obligation'])); total += 1
+                if run.get('unwind_obligation') or prop.get('unwind_is_obligation'):
+                    failures.append(dict(r, kind='OBL', name=run.get('unwind_obligation') or '%s.%s.terminates' % (r['unit'], r['run']))); total += 1
                 else:
                     errors.append('unwinding assertion failed (shape bound too small or non-termination): %s/%s %s' % (r['unit'], r['run'], r['name']))
+            elif prop.get('unwind_is_obligation') or any(x.get('unwind_obligation') for u in units if u['name'] == r['unit'] for x in u['runs'] if x['id'] == r['run']):
+                total += 1
+                if r['cls'] == 'bounded': bounded_ok += 1
+                else: ok += 1
+                named_seen.add('%s.%s.terminates' % (r['unit'], r['run']))
+            continue
+        if r['kind'] == 'DFCC':
+            total += 1
+            if r['status'] == 'SUCCESS': ok += 1
+            else:
+                uu = [x for x in units if x['name'] == r['unit']][0]
+                tgt = list(uu.get('loop_obligation', {}).values())
+                failures.append(dict(r, kind='OBL', name=tgt[0] if tgt else r['name'], via='route D ' + r['name']))
             continue
         if r['kind'] == 'MODEL':
             if r['status'] != 'SUCCESS': errors.append('model self-check failed: %s/%s %s' % (r['unit'], r['run'], r['name']))
